@@ -23,6 +23,8 @@ pub trait Calc {
     fn res(&self, a: u8) -> Result<u32, u8>;
     fn by_val(&self, p: Pt) -> u64;
     fn text(&self, s: &str) -> u32;
+    fn wide(&self, a: i64, b: u8, c: i16) -> i64;
+    fn wide2(&self, a: u64, b: i8, c: u16) -> (u16, i64);
 }
 pub static mut SEEN: [u64; 10] = [0; 10];
 pub static mut CALLS: u32 = 0;
@@ -55,6 +57,14 @@ impl Calc for CalcImpl {
         unsafe { SEEN[0] = p.x as u64; SEEN[1] = p.y as u64; CALLS += 1; }
         ((p.x as u64) << 32) | p.y as u64
     }
+    fn wide(&self, a: i64, b: u8, c: i16) -> i64 {
+        unsafe { SEEN[0] = a as u64; SEEN[1] = b as u64; SEEN[2] = c as u16 as u64; CALLS += 1; }
+        a ^ 0x55
+    }
+    fn wide2(&self, a: u64, b: i8, c: u16) -> (u16, i64) {
+        unsafe { SEEN[0] = a; SEEN[1] = b as u8 as u64; SEEN[2] = c as u64; CALLS += 1; }
+        (c, a as i64)
+    }
     fn text(&self, s: &str) -> u32 {
         let b = s.as_bytes();
         unsafe { SEEN[0] = b.len() as u64; SEEN[1] = if b.len() > 0 { b[0] as u64 } else { 0 }; SEEN[2] = if b.len() > 1 { b[1] as u64 } else { 0 }; CALLS += 1; }
@@ -63,7 +73,7 @@ impl Calc for CalcImpl {
 }
 fn conn(masks: u64) -> AbiConnection<dyn Calc> {
     let imp: Box<dyn Calc> = Box::new(CalcImpl);
-    connect::<dyn Calc, dyn Calc>(imp, 0, vec![m(Some(0), masks), m(Some(1), masks), m(Some(2), masks), m(Some(3), masks), m(Some(4), masks), m(Some(5), masks), m(Some(6), masks), m(Some(7), masks)])
+    connect::<dyn Calc, dyn Calc>(imp, 0, vec![m(Some(0), masks), m(Some(1), masks), m(Some(2), masks), m(Some(3), masks), m(Some(4), masks), m(Some(5), masks), m(Some(6), masks), m(Some(7), masks), m(Some(8), masks), m(Some(9), masks)])
 }
 pub mod q {
     use super::*;
@@ -89,6 +99,25 @@ pub mod q {
         std::mem::forget(c);
         kani::cover!(byref, "by-reference path taken");
         kani::cover!(!byref, "serialized path taken");
+        kani::cover!(true, "reached end");
+    });
+    // every primitive width in the fixed-size argument / return buffers
+    kproof!(wide_ints, 6, {
+        let (a, b, cc): (i64, u8, i16) = (kani::any(), kani::any(), kani::any());
+        let c = conn(0);
+        let r = c.wide(a, b, cc);
+        assert!(unsafe { SEEN[0] == a as u64 && SEEN[1] == b as u64 && SEEN[2] == cc as u16 as u64 }, "C09: the implementation received different argument values (i64/u8/i16)");
+        assert!(r == a ^ 0x55, "C09: the caller received a different i64 return value");
+        std::mem::forget(c);
+        kani::cover!(true, "reached end");
+    });
+    kproof!(wide_ints2, 6, {
+        let (a, b, cc): (u64, i8, u16) = (kani::any(), kani::any(), kani::any());
+        let c = conn(0);
+        let r = c.wide2(a, b, cc);
+        assert!(unsafe { SEEN[0] == a && SEEN[1] == b as u8 as u64 && SEEN[2] == cc as u64 }, "C09: the implementation received different argument values (u64/i8/u16)");
+        assert!(r.0 == cc && r.1 == a as i64, "C09: the caller received a different tuple return value");
+        std::mem::forget(c);
         kani::cover!(true, "reached end");
     });
     kproof!(unit_ret, 6, {
@@ -169,7 +198,7 @@ pub mod t {
     #[kani::unwind(6)]
     pub fn missing_method_panics() {
         let imp: Box<dyn Calc> = Box::new(CalcImpl);
-        let c = connect::<dyn Calc, dyn Calc>(imp, 0, vec![m(None, 0), m(Some(1), 0), m(Some(2), 0), m(Some(3), 0), m(Some(4), 0), m(Some(5), 0), m(Some(6), 0), m(Some(7), 0)]);
+        let c = connect::<dyn Calc, dyn Calc>(imp, 0, vec![m(None, 0), m(Some(1), 0), m(Some(2), 0), m(Some(3), 0), m(Some(4), 0), m(Some(5), 0), m(Some(6), 0), m(Some(7), 0), m(Some(8), 0), m(Some(9), 0)]);
         let _ = c.add(1, 2);
     }
 }
